@@ -193,7 +193,12 @@ class Rotation(BaseOperation):
         atoms = context.atoms
 
         molecule = cast("Atoms", atoms[context._moving_indices])
-        phi, theta, psi = context.rng.uniform(0, 2 * np.pi, 3)
+        random_numbers = context.rng.uniform(0, 1, 3)
+
+        phi = 360.0 * random_numbers[0]
+        theta = np.degrees(np.arccos(2.0 * random_numbers[1] - 1.0))
+        psi = 360.0 * random_numbers[2]
+
         molecule.euler_rotate(phi, theta, psi, center="COM")  # type: ignore
 
         return molecule.positions - context.atoms.positions[context._moving_indices]
